@@ -264,7 +264,9 @@ impl<R: DebugBufRead> SymEncryptedProtectedDataReader<R> {
                     (buf.is_empty(), true)
                 }
                 Source::Done(_) => (false, true),
-                Source::Error => panic!("SymEncryptedProtectedDataReader errored"),
+                Source::Error => {
+                    return Err(io::Error::other("SymEncryptedProtectedDataReader errored"));
+                }
             };
 
             if needs_replacing {
